@@ -131,6 +131,85 @@ func genAstWriteFacts() {
 				}
 				return true
 			}
+			// fields of a local struct copy that the function re-points to fresh memory:
+			//   fn.Args = make(…) / []T{…} / append([]T{…}, …) / append([]T(nil), …)   or   fn.Args = <fresh local>
+			isFreshExpr := func(e ast.Expr) bool {
+				switch x := e.(type) {
+				case *ast.CompositeLit:
+					return true
+				case *ast.Ident:
+					o := p.Info.Uses[x]
+					return freshLocal(o)
+				case *ast.CallExpr:
+					id, ok := x.Fun.(*ast.Ident)
+					if !ok {
+						return false
+					}
+					b, ok := p.Info.Uses[id].(*types.Builtin)
+					if !ok {
+						return false
+					}
+					switch b.Name() {
+					case "make", "new":
+						return true
+					case "append":
+						if len(x.Args) == 0 {
+							return false
+						}
+						switch a0 := x.Args[0].(type) {
+						case *ast.CompositeLit:
+							return true
+						case *ast.CallExpr: // conversion []T(nil)
+							if tv, ok := p.Info.Types[a0.Fun]; ok && tv.IsType() && len(a0.Args) == 1 {
+								if nid, ok := a0.Args[0].(*ast.Ident); ok && nid.Name == "nil" {
+									return true
+								}
+							}
+						case *ast.Ident:
+							return freshLocal(p.Info.Uses[a0])
+						}
+					}
+				}
+				return false
+			}
+			type repoint struct {
+				path  string
+				pos   token.Pos
+				block ast.Node
+			}
+			var repoints []repoint
+			par := parents(fd)
+			ast.Inspect(fd.Body, func(n ast.Node) bool {
+				as, ok := n.(*ast.AssignStmt)
+				if !ok || as.Tok != token.ASSIGN || len(as.Lhs) != len(as.Rhs) {
+					return true
+				}
+				for i, l := range as.Lhs {
+					if _, isSel := l.(*ast.SelectorExpr); isSel && isFreshExpr(as.Rhs[i]) {
+						repoints = append(repoints, repoint{exprText(l), as.End(), par[as]})
+					}
+				}
+				return true
+			})
+			repointed := func(lhs ast.Expr) bool {
+				ix, ok := lhs.(*ast.IndexExpr)
+				if !ok {
+					return false
+				}
+				base := exprText(ix.X)
+				for _, r := range repoints {
+					if r.path != base || r.pos > lhs.Pos() {
+						continue
+					}
+					// the re-pointing statement's block must enclose the write
+					for n := ast.Node(lhs); n != nil; n = par[n] {
+						if n == r.block {
+							return true
+						}
+					}
+				}
+				return false
+			}
 			check := func(lhs ast.Expr) {
 				if _, ok := lhs.(*ast.Ident); ok {
 					return
@@ -208,6 +287,9 @@ func genAstWriteFacts() {
 				switch {
 				case indirections == 0:
 					fact.how = "field of a local struct copy"
+					local = append(local, fact)
+				case indirections == 1 && repointed(lhs):
+					fact.how = "element of a field of a local struct copy that this function re-pointed to fresh memory"
 					local = append(local, fact)
 				case indirections == 1 && freshLocal(ro):
 					fact.how = "memory made in this function (composite literal / make / new)"
